@@ -1,5 +1,6 @@
 # -*- coding: utf-8 -*-
 """C11 -- schemas built from SDL contain exactly what the SDL declares."""
+import os
 import random
 
 from py_gql.lang import parse
@@ -249,6 +250,8 @@ def direct_checks(case, obs):
 
 def shrink(case, is_bad):
     """drop whole blocks while the failure persists"""
+    if os.environ.get("VERIF_NO_SHRINK"):
+        return case
     blocks = case["sdl"].rstrip("\n").split("\n\n")
     changed = True
     while changed and len(blocks) > 1:
